@@ -24,7 +24,9 @@ import (
 	"verifharness/internal/vkit"
 )
 
-func main() { vkit.Main("C04", []string{"Model.Contain", "Model.ContainCases"}, run) }
+func main() {
+	vkit.Main("C04", []string{"Model.Contain", "Model.ContainCases", "Gen.C04Cell"}, run)
+}
 
 // ---------- interning and the crossing table ----------
 
@@ -1008,7 +1010,47 @@ func runTilings(c *vkit.Collector, rng *vkit.Rng, budget int) {
 			}
 		}
 		c.Class("tiling:neighbourhood")
+		if k < 60 {
+			cellVertexCases(c, s2.CellFromCellID(id))
+		}
+		sharedVertices(c, id, ids)
 		checkTiling(c, fmt.Sprintf("neighbourhood:%s level %d", id.ToToken(), level), ids, tileProbes(s2.CellFromCellID(id)))
+	}
+}
+
+// [T] the translated Cell.Vertex (Gen/C04Cell.v) against the running code, bit for bit
+func cellVertexCases(c *vkit.Collector, cell s2.Cell) {
+	face, ulo, uhi, vlo, vhi := s2.VerifC04CellFaceUV(cell)
+	ct := vkit.App("mk_s2_Cell", vkit.Z(int64(face)), "0%Z", "0%Z", "0%Z",
+		vkit.App("mk_r2_Rect", vkit.App("mk_r1_Interval", vkit.F(ulo), vkit.F(uhi)), vkit.App("mk_r1_Interval", vkit.F(vlo), vkit.F(vhi))))
+	for k := 0; k < 4; k++ {
+		v := cell.Vertex(k)
+		c.Check(fmt.Sprintf("Cell.Vertex %s %d", cell.ID().ToToken(), k),
+			vkit.App("s2_Point_eqbits", vkit.App("s2_Cell_Vertex", ct, vkit.Z(int64(k))),
+				vkit.App("mk_s2_Point", vkit.App("mk_r3_Vector", vkit.F(v.X), vkit.F(v.Y), vkit.F(v.Z)))))
+	}
+}
+
+// [S] every vertex of the cell is, bit for bit (up to the sign of zero), a vertex of each
+// neighbour loop that touches it: 4 loops meet at a vertex (3 at a cube corner).
+func sharedVertices(c *vkit.Collector, id s2.CellID, ids []s2.CellID) {
+	cell := s2.CellFromCellID(id)
+	for k := 0; k < 4; k++ {
+		v := cell.Vertex(k)
+		cnt := 0
+		for _, nb := range ids {
+			l := s2.LoopFromCell(s2.CellFromCellID(nb))
+			for _, w := range l.Vertices() {
+				if w == v {
+					cnt++
+				}
+			}
+		}
+		c.Evals++
+		if cnt != 4 && cnt != 3 {
+			c.Violate("tiling.sharedVertex", fmt.Sprintf("vertex %d of cell %s is a vertex of %d neighbouring cell loops (expected 4, or 3 at a cube corner)", k, id.ToToken(), cnt),
+				map[string]interface{}{"type": "sharedVertex", "cell": id.ToToken(), "k": k, "v_bits": bits(v)})
+		}
 	}
 }
 
